@@ -74,7 +74,7 @@ func refSel(depth int) []PSel {
 
 func modelProbes(orig *Spec) [][]PSel {
 	var out [][]PSel
-	out = append(out, []PSel{P("__schema", P("queryType", P("name")), P("mutationType", P("name")), P("types", P("name")))})
+	out = append(out, []PSel{P("__schema", P("queryType", P("name")), P("mutationType", P("name")), P("subscriptionType", P("name"), P("fields", P("name"))), P("types", P("name")))})
 	out = append(out, []PSel{P("__schema", P("types", P("name"), P("kind"),
 		P("interfaces", P("name")), P("possibleTypes", P("name")),
 		P("fields", P("name"), P("type", refSel(3)...)),
@@ -182,6 +182,8 @@ func (h *harness) tieWalk(env *pairEnv, spec *Spec, F []string, q *query, real o
 	root := spec.Query
 	if d.Op == "mutation" {
 		root = spec.Mutation
+	} else if d.Op == "subscription" {
+		root = spec.Subscription
 	}
 	inlined := map[string]bool{}
 	rep := h.ask("(walk " + featSexp(F) + " full " + hx.A(root).String() + " " + docSels(d, d.Sels, inlined).String() + ")")
@@ -258,7 +260,7 @@ func (h *harness) tieWalk(env *pairEnv, spec *Spec, F []string, q *query, real o
 // visible, argument-free-callable Query field returns, and every object type O of the original
 // schema, the application is forced to return an object of type O; A resolves it iff the response
 // carries __typename O.
-func realResolveCandidates(b *built, w *world, features []string, orig *Spec, view *Spec) []string {
+func realResolveCandidates(b *built, w *world, features []string, orig *Spec, view *Spec, plainSpec *Spec) []string {
 	var lines []string
 	F := fset(features)
 	q := view.find(view.Query)
@@ -281,8 +283,10 @@ func realResolveCandidates(b *built, w *world, features []string, orig *Spec, vi
 			continue
 		}
 		seen[a.Name] = true
-		for _, o := range orig.Types {
-			if o.Kind != "object" {
+		for _, o := range plainSpec.Types {
+			// only objects the harness itself defines: the library's connection / edge / PageInfo
+			// objects recognise their own Go values, not the forced stand-in
+			if o.Kind != "object" || o.Builtin != "" {
 				continue
 			}
 			w.force = o.Name
